@@ -15,7 +15,7 @@ def parseFin8 (s : String) : Option (Fin 8) :=
 /-- "k" or "k1.k2.k3" = compose(syms[k1], syms[k2], syms[k3]) -/
 def parseWord (s : String) : Option Symm := (s.splitOn ".").mapM parseFin8
 
-def fmtR (r : R String) : String :=
+private def fmtR (r : R String) : String :=
   match r with
   | .ok s => s
   | .error e => fmtErr e
